@@ -250,7 +250,7 @@ func (e *Equation) Append(buf []byte, parens bool) []byte {
 		case not.code:
 			buf = append(buf, '!')
 			if e.left != nil {
-				buf = e.left.Append(buf, e.left.o != nil && e.left.o.prec >= e.o.prec)
+				buf = e.left.Append(buf, e.left.infix())
 			}
 		case get.code:
 			if e.left != nil {
@@ -270,17 +270,20 @@ func (e *Equation) Append(buf []byte, parens bool) []byte {
 			buf = append(buf, ')')
 		case group.code:
 			if e.left != nil {
-				buf = e.left.Append(buf, e.left.o != nil && e.left.o.prec >= e.o.prec)
+				buf = e.left.Append(buf, e.left.infix())
 			}
 		default:
+			// Operators of equal precedence are read as left associative so an
+			// infix operand needs parentheses if it binds less tightly or, on
+			// the right side, equally tightly.
 			if e.left != nil {
-				buf = e.left.Append(buf, e.left.o != nil && e.left.o.prec >= e.o.prec)
+				buf = e.left.Append(buf, e.left.infix() && e.o.prec < e.left.o.prec)
 			}
 			buf = append(buf, ' ')
 			buf = append(buf, e.o.name...)
 			buf = append(buf, ' ')
 			if e.right != nil {
-				buf = e.right.Append(buf, e.left.o != nil && e.left.o.prec >= e.o.prec)
+				buf = e.right.Append(buf, e.right.infix() && e.o.prec <= e.right.o.prec)
 			}
 		}
 	}
@@ -288,6 +291,19 @@ func (e *Equation) Append(buf []byte, parens bool) []byte {
 		buf = append(buf, ')')
 	}
 	return buf
+}
+
+// infix returns true if the equation is written as left, operator, and then
+// right as opposed to a value, a function call, or a unary operator.
+func (e *Equation) infix() bool {
+	if e == nil || e.o == nil {
+		return false
+	}
+	switch e.o.code {
+	case not.code, get.code, length.code, count.code, match.code, search.code, group.code:
+		return false
+	}
+	return true
 }
 
 func (e *Equation) appendValue(buf []byte, v any) []byte {
